@@ -31,7 +31,14 @@ search: per array, the shortest model history violating the property is found by
        (every object a call returns must equal what the same call returns in a fresh process): the random histories,
        a directed sweep over all ordered pairs of methods at their common degrees (with in-place edits of every
        returned array, cache flag on/off, AtomGrid / shell grids), the Coulomb loader (edit the returned arrays, load
-       again by atomic number / symbol / lower-case symbol) and the transform call orders.  Whenever a part of the tie
+       again by atomic number / symbol / lower-case symbol), the transform call orders, and the reachable-array sweep:
+       for every construction A (AngularGrid per method, AtomGrid(...), AtomGrid.from_preset / from_pruned with their
+       default radial grid and default centre, get_shell_grid, MolGrid.from_size / from_preset / from_pruned, the loader)
+       every NumPy array reachable from the returned object (points, weights, center, indices, rgrid.points,
+       rgrid.weights, atgrids[i].*, atcoords, aim_weights, ...) is overwritten in place, then every construction B is
+       repeated: its points and weights must be what B returns in a fresh process (all grid.* modules are reloaded in
+       dependency order between the A's, so module-level state unknown to the harness is reset too); a failure is
+       narrowed to the single edited array.  Whenever a part of the tie
        is broken (a unit outside the extractor's subset -- that part of the model then is the specification itself --,
        an instance theorem about cfg_src / tcfg_src that no longer compiles, a trace disagreement without a probing
        result), Ctx.broken_tie reports the first such failing history that is not a listed known finding as the
@@ -1807,6 +1814,210 @@ def directed_histories(impl):
     return hs
 
 
+def reload_grid():
+    """Reload every loaded grid.* module in dependency order (classes imported across modules stay consistent); resets
+    all module-level state of the library, also state this harness does not know about."""
+    import sys
+
+    mods = {n: m for n, m in sys.modules.items() if n.startswith("grid.") and ".tests" not in n and ".data" not in n
+            and m is not None and getattr(m, "__file__", None) and m.__file__.endswith(".py")}
+    deps = {}
+    for n, m in mods.items():
+        try:
+            tree = ast.parse(open(m.__file__).read())
+        except Exception:  # noqa: BLE001
+            tree = ast.parse("")
+        d = set()
+        for node in ast.walk(tree):
+            if isinstance(node, ast.ImportFrom) and node.module and node.module.startswith("grid."):
+                d.add(node.module)
+            elif isinstance(node, ast.ImportFrom) and node.module == "grid":
+                d.update("grid." + a.name for a in node.names)
+            elif isinstance(node, ast.Import):
+                d.update(a.name for a in node.names if a.name.startswith("grid."))
+        deps[n] = {x for x in d if x in mods and x != n}
+    done, order = set(), []
+
+    def visit(n, stack=()):
+        if n in done or n in stack:
+            return
+        for x in sorted(deps[n]):
+            visit(x, stack + (n,))
+        done.add(n)
+        order.append(n)
+
+    for n in sorted(mods):
+        visit(n)
+    for n in order:
+        importlib.reload(mods[n])
+
+
+# ====================================================================== edits of every array reachable from a returned object
+SKIP_ATTRS = {"basis", "kdtree"}
+
+
+def reachable_arrays(obj, depth=2, prefix=""):
+    """(path, ndarray) for every NumPy array reachable through public attributes / properties of a returned object
+    (grids inside it, lists and tuples included), e.g. points, weights, center, indices, rgrid.points, atgrids[0].center."""
+    out = []
+    if isinstance(obj, np.ndarray):
+        return [(prefix or "self", obj)]
+    if isinstance(obj, (list, tuple)):
+        for i, x in enumerate(obj[:4]):
+            if isinstance(x, np.ndarray) or (depth > 0 and hasattr(x, "__dict__")) or isinstance(x, (list, tuple)):
+                out += reachable_arrays(x, depth - 1 if not isinstance(x, np.ndarray) else depth, f"{prefix}[{i}]")
+        return out
+    if depth < 0 or not hasattr(obj, "__dict__"):
+        return out
+    for name in sorted(n for n in dir(type(obj)) if not n.startswith("_")):
+        if name in SKIP_ATTRS:
+            continue
+        attr = getattr(type(obj), name, None)
+        if not isinstance(attr, property):
+            continue
+        try:
+            with warnings.catch_warnings():
+                warnings.simplefilter("ignore")
+                v = getattr(obj, name)
+        except Exception:  # noqa: BLE001
+            continue
+        path = f"{prefix}.{name}" if prefix else name
+        if isinstance(v, np.ndarray):
+            out.append((path, v))
+        elif isinstance(v, (list, tuple)) or (hasattr(v, "__dict__") and type(v).__module__.startswith("grid")):
+            out += reachable_arrays(v, depth - 1, path)
+    return out
+
+
+def resolve_path(obj, path):
+    cur = obj
+    for tok in path.replace("]", "").replace("[", ".[").split("."):
+        if not tok:
+            continue
+        cur = cur[int(tok[1:])] if tok.startswith("[") else getattr(cur, tok)
+    return cur
+
+
+def factories(impl):
+    """Constructions whose result is determined by the call alone (every input is created afresh inside)."""
+    I = impl
+    co = lambda: np.array([[0.0, 0.0, 0.0], [0.0, 0.0, 1.4]])
+    nums = lambda: np.array([1, 1])
+    fs = []
+    for m in METHODS:
+        fs.append((f"AngularGrid(degree={WITNESS_DEG[m]},method='{m}')", lambda m=m: I.A.AngularGrid(degree=WITNESS_DEG[m], method=m)))
+    fs += [
+        ("AtomGrid(rgrid3,degrees=[3,5,3])", lambda: I.AT.AtomGrid(I.rgrid(3, False), degrees=[3, 5, 3])),
+        ("AtomGrid(rgrid2,degrees=[5,5],method='maxdet',rotate=7)", lambda: I.AT.AtomGrid(I.rgrid(2, False), degrees=[5, 5], method="maxdet", rotate=7)),
+        ("AtomGrid.from_preset(1,'coarse')", lambda: I.AT.AtomGrid.from_preset(1, "coarse")),
+        ("AtomGrid.from_preset(atnum=8,preset='coarse',method='lebedev')", lambda: I.AT.AtomGrid.from_preset(atnum=8, preset="coarse", method="lebedev")),
+        ("AtomGrid.from_pruned(rgrid3,1.0,r_sectors=[0.6,1.2],d_sectors=[3,5,3])",
+         lambda: I.AT.AtomGrid.from_pruned(I.rgrid(3, False), 1.0, r_sectors=[0.6, 1.2], d_sectors=[3, 5, 3])),
+        ("AtomGrid(rgrid3,degrees=[3,5,3]).get_shell_grid(1)", lambda: I.AT.AtomGrid(I.rgrid(3, False), degrees=[3, 5, 3]).get_shell_grid(1)),
+        ("AtomGrid.from_preset(1,'coarse').get_shell_grid(0)", lambda: I.AT.AtomGrid.from_preset(1, "coarse").get_shell_grid(0)),
+        ("MolGrid.from_size([1,1],coords,6,rgrid3,store=True)", lambda: I.M.MolGrid.from_size(nums(), co(), 6, rgrid=I.rgrid(3, False), store=True)),
+        ("MolGrid.from_preset([1,1],coords,'coarse',store=True)", lambda: I.M.MolGrid.from_preset(nums(), co(), "coarse", store=True)),
+        ("MolGrid.from_preset([1,1],coords,'coarse')", lambda: I.M.MolGrid.from_preset(nums(), co(), "coarse")),
+        ("MolGrid.from_pruned([1,1],coords,1.0,[[0.6,1.2]]*2,d_sectors=[[3,5,3]]*2,rgrid3,store=True)",
+         lambda: I.M.MolGrid.from_pruned(nums(), co(), 1.0, [[0.6, 1.2], [0.6, 1.2]], d_sectors=[[3, 5, 3], [3, 5, 3]], rgrid=I.rgrid(3, False), store=True)),
+        ("load_atomic_gaussian_params('O')", lambda: I.C.load_atomic_gaussian_params("O")),
+    ]
+    return fs
+
+
+def judged(obj):
+    """What the property speaks about: points and weights (the two arrays of a parameter tuple)."""
+    if isinstance(obj, tuple):
+        return {"[0]": np.array(obj[0]), "[1]": np.array(obj[1])}
+    return {"points": np.array(obj.points), "weights": np.array(obj.weights)}
+
+
+def edit_value(a, j):
+    return (1000.0 + j) if a.dtype.kind == "f" else (1 if a.dtype.kind in "iu" else None)
+
+
+def reachable_sweep(ctx: Ctx, impl, reload_all):
+    """For every construction A: build it, overwrite in place every array reachable from the returned object, then build
+    every construction B again: points and weights of B must be bit for bit what B returns in a fresh process.  Modules
+    are reloaded between the A's (module-level state the harness does not know about is reset that way)."""
+    out = []
+    reload_all()
+    fs = factories(impl)
+    refs = {}
+    with warnings.catch_warnings():
+        warnings.simplefilter("ignore")
+        for name, f in fs:
+            try:
+                refs[name] = judged(f())
+            except Exception as e:  # noqa: BLE001 - the construction does not exist in this version: not part of the sweep
+                ctx.notes.append(f"reachable sweep: {name} raised {type(e).__name__} in a fresh process; left out")
+        reload_all()
+
+        def differs(b):
+            try:
+                got = judged(dict(fs)[b]())
+            except Exception as e:  # noqa: BLE001 - an exception of the implementation is a failure with the concrete call
+                return "raises", f"{type(e).__name__}: {str(e)[:80]}"
+            for k, r in refs[b].items():
+                if got[k].shape != r.shape or got[k].tobytes() != r.tobytes():
+                    return k, fingerprint(got[k])
+            return None
+
+        for a, fa in fs:
+            if a not in refs:
+                continue
+            ctx.case(("reach", a))
+            try:
+                oa = fa()
+                arrays = [(p, arr) for p, arr in reachable_arrays(oa) if arr.flags.writeable and edit_value(arr, 0) is not None]
+            except Exception:  # noqa: BLE001
+                reload_all()
+                continue
+            for j, (pth, arr) in enumerate(arrays):
+                arr[...] = edit_value(arr, j)
+            bad = [(b, differs(b)) for b in refs]
+            bad = [(b, d) for b, d in bad if d is not None]
+            reload_all()
+            for b, _d in bad[:2]:
+                # which single edit is responsible?  (fresh process state for every attempt)
+                found = None
+                for j, (pth, _arr) in enumerate(arrays):
+                    try:
+                        o2 = fa()
+                        arr2 = resolve_path(o2, pth)
+                        arr2[...] = edit_value(arr2, j)
+                        d = differs(b)
+                    except Exception:  # noqa: BLE001
+                        d = None
+                    reload_all()
+                    if d is not None:
+                        found = (pth, j, d)
+                        break
+                if found is None:
+                    try:
+                        fa()
+                        d = differs(b)
+                    except Exception:  # noqa: BLE001
+                        d = None
+                    reload_all()
+                    if d is not None:
+                        found = (None, None, d)
+                if found is None:
+                    continue
+                pth, j, (what, obs) = found
+                edit = f"o0.{pth}[...]={edit_value(resolve_path(oa, pth), j)}; " if pth else ""
+                edit = edit.replace("o0.[", "o0[")
+                key = f"o0={a}; {edit}o1={b}; o1.{what}".replace("o1.[", "o1[").replace("o1.raises", "o1")
+                text = (f"`o0={a}; {edit}o1={b}`: " + (f"the second construction raises {obs}" if what == "raises" else
+                        f"o1.{what} differs from what the same call returns in a fresh process (sum {obs[0]:.6g})") +
+                        (f": the array o0.{pth} handed out by the first object is shared with library state that later constructions read"
+                         if pth else ": the second construction depends on the first"))
+                out.append((key, obs if what != "raises" else "raises", text,
+                            {"kind": "reachable", "first": a, "path": pth, "edit_index": j, "second": b, "judged": what, "python": key}))
+    reload_all()
+    return out
+
+
 # ====================================================================== disagreement -> concrete failing input
 def eval_traces(ctx: Ctx, impl, spec_n, name, histories):
     """Run the histories on the implementation and the model; -> list of bool (True = traces agree)."""
@@ -1978,6 +2189,9 @@ class Reports:
             if not found:
                 unfound.setdefault(ob, text)
                 continue
+            if ctx.is_known(key, observed):  # a listed finding never uses up the cap (it must not mask a new failing class)
+                ctx.fail(ob, key, observed, text, replay, found_input=True)
+                continue
             per[ob] = per.get(ob, 0) + 1
             if per[ob] <= MAXREP:
                 ctx.fail(ob, key, observed, text, replay, found_input=True)
@@ -1999,8 +2213,7 @@ def run(ctx: Ctx):
     import grid.molgrid as M
     import grid.rtransform as RT
 
-    for mod in (B, A, AT, M, C, RT):
-        importlib.reload(mod)
+    reload_grid()
 
     # ---------------------------------------------------------------- gen
     gen_problems = []
@@ -2200,12 +2413,30 @@ def run(ctx: Ctx):
     for ob, text in rep.flush(ctx).items():
         broken.append((ob, text, "transform" if ob == "corr_b_machine" else "angular"))
 
+    # ---------------------------------------------------------------- in-place edits of every array reachable from a returned object
+    reload_all = reload_grid
+
+    n_new, seen_cls = 0, set()
+    for key, observed, text, rpc in reachable_sweep(ctx, impl, reload_all):
+        add_cand("coulomb" if "load_atomic" in rpc["first"] else "angular", (key, observed, text, rpc))
+        cls_ = (rpc["first"].split("(")[0], rpc["path"])  # one report per (kind of first object, edited array)
+        if ctx.is_known(key, observed):
+            ctx.fail("reachable_edit_refines_spec", key, observed, text, rpc)
+        elif cls_ not in seen_cls and n_new < 2 * MAXREP:
+            seen_cls.add(cls_)
+            n_new += 1
+            ctx.fail("reachable_edit_refines_spec", key, observed, text, rpc)
+
     # ---------------------------------------------------------------- the model says the property holds everywhere, the implementation does not
     if not first and not broken:
-        n = 0
         for area in ("angular", "coulomb"):
+            n = 0
             for key, observed, text, rpc in cands[area]:
-                if n < MAXREP and not any(f.key == key for f in ctx.failures):
+                if any(f.key == key for f in ctx.failures) or rpc.get("kind") == "reachable":
+                    continue
+                if ctx.is_known(key, observed):
+                    ctx.fail("direct_refines_spec", key, observed, text, rpc)
+                elif n < MAXREP:
                     ctx.fail("direct_refines_spec", key, observed, text, rpc)
                     n += 1
 
@@ -2220,8 +2451,7 @@ def run(ctx: Ctx):
 
     # restore pristine module state for whoever imports grid after us
     impl.reset()
-    for mod in (B, A, AT, M, C, RT):
-        importlib.reload(mod)
+    reload_grid()
 
     ctx.cov["rule"] = ("random API histories of 2..12 calls over 1-3 methods and 1-2 (requested) degrees each: AngularGrid(cache on/off), in-place fill of "
                        "points/weights of any returned object, attribute reassignment, AtomGrid (1-3 shells, rotate 0/7, optional shell at r=1e-9), get_shell_grid, "
@@ -2270,6 +2500,27 @@ def replay(rp):
         print("python:", rp.get("python"))
         print("observed fingerprint [sum, first]:", fingerprint(arr), "| equals the shipped data:", same)
         return 0 if same else 1
+    if kind == "reachable":
+        _, _, names = extract_angular_safe()
+        impl = Impl(names)
+        fs = dict(factories(impl))
+        with warnings.catch_warnings():
+            warnings.simplefilter("ignore")
+            ref = judged(fs[rp["second"]]())
+            reload_grid()
+            o0 = fs[rp["first"]]()
+            if rp.get("path"):
+                arr = resolve_path(o0, rp["path"])
+                arr[...] = edit_value(arr, rp["edit_index"])
+            try:
+                got = judged(fs[rp["second"]]())
+            except Exception as e:  # noqa: BLE001
+                print("python:", rp.get("python"), "-> raises", type(e).__name__, e)
+                return 1
+        print("python:", rp.get("python"))
+        bad = [k for k in ref if got[k].shape != ref[k].shape or got[k].tobytes() != ref[k].tobytes()]
+        print("arrays of the second object differing from a fresh process:", bad, [fingerprint(got[k]) for k in bad])
+        return 1 if bad else 0
     if kind == "transform_repeat":
         import grid.rtransform as RT
 
